@@ -8,7 +8,7 @@
     n > 170.  They are covered by kernel-certified samples (S3) and implementation-side predicates (S4). *)
 From Coq Require Import Reals ZArith List Bool.
 From Coquelicot Require Import Coquelicot.
-From LP Require Import Num NumR C06_Model C06_Proofs_Fact C06_Proofs_Gamma C06_Proofs_QInt C06_Proofs_Examples.
+From LP Require Import Num NumR C06_Model C06_Proofs_Fact C06_Proofs_Gamma C06_Proofs_QInt C06_Proofs_Seq C06_Proofs_Examples.
 (* C06_Proofs_Examples.v: concrete inputs satisfying the hypotheses of the implications below (non-vacuity) *)
 Import ListNotations.
 Local Open Scope bool_scope.
@@ -82,6 +82,24 @@ Theorem C06_binomial_guards (tbl : list R) (n k : Z) :
   ((k < 0 \/ n < 0)%Z -> binomial_step ROps tbl n k = (tbl, Exit)).
 Proof. exact (conj (binomial_lt tbl n k) (binomial_negative tbl n k)). Qed.
 Print Assumptions C06_binomial_guards.
+
+(** Quantifier "over inputs AND histories": in every history of calls to the family in one process (GammaLn, Gamma, GammaP/Q, Upper/Lower,
+    Inv_GammaP/Q, Factorial, Binomial_Coefficient with any arguments, started from FactorialList = {1.0}) each call gets exactly the answer
+    a fresh process gives to the same call (call_run pairs the two answers; this is the term the "seq" cases run against the C++). *)
+Theorem C06_call_history_independent (cs : list call) :
+  List.Forall (fun hf => fst hf = snd hf) (snd (call_run ROps (fact_init ROps) cs)) /\
+  length (snd (call_run ROps (fact_init ROps) cs)) = length cs.
+Proof. exact (call_history_independent cs). Qed.
+Print Assumptions C06_call_history_independent.
+
+(** ... in particular the same call made twice, with any calls before and in between, is answered identically. *)
+Theorem C06_call_repeatable (c : call) (before between : list call) :
+  let t1 := fst (call_run ROps (fact_init ROps) before) in
+  let '(t2, o1) := call_step ROps t1 c in
+  let t3 := fst (call_run ROps t2 between) in
+  snd (call_step ROps t3 c) = o1.
+Proof. exact (call_repeatable c before between). Qed.
+Print Assumptions C06_call_repeatable.
 
 (** "P and Q ... sum to one" *)
 Theorem C06_p_plus_q (x a p q : R) : gammap ROps x a = Ok p -> gammaq ROps x a = Ok q -> p + q = 1.
